@@ -140,8 +140,11 @@ pub fn gen_c17(seed: u64, thorough: bool, only: Option<u64>, out: &mut Out) {
       few.push(shares_b64[0].clone());
       variants.push((few, epoch.clone(), Some(false), "t-1 distinct shares padded with a repeat"));
     }
+    // (asked right after the same list under the clients' epoch: nothing may be carried over from that call)
+    variants.push((shares_b64[..tt].to_vec(), epoch.clone(), Some(true), "t distinct shares"));
     let other_epoch = format!("{}x", epoch);
     variants.push((shares_b64[..tt].to_vec(), other_epoch, None, "t distinct shares, different epoch"));
+    variants.push((shares_b64[..tt].to_vec(), epoch.clone(), Some(true), "t distinct shares, the clients' epoch again"));
     // epochs that differ only in surrounding white space are different epochs
     for (k, other) in [format!("{} ", epoch), format!("{}\n", epoch), format!(" {}", epoch), epoch.trim().to_string()].into_iter().enumerate() {
       if other != epoch {
@@ -224,6 +227,8 @@ pub fn gen_c18(seed: u64, thorough: bool, only: Option<u64>, out: &mut Out) {
     let mut r = Prng::for_case(seed, "C18", gi);
     let t = *r.pick(&[1u32, 2, 3, 4]);
     let epoch: String = (0..r.below(4)).map(|_| (b'a' + r.below(26) as u8) as char).collect();
+    // labels with surrounding white space are labels too (runs 2 and 3, and now and then in the thorough tier)
+    let epoch = match (gi, thorough && r.below(8) == 0) { (2, _) => format!("{}\n", epoch), (3, _) => format!(" {} x", epoch), (_, true) => format!("\t{} ", epoch), _ => epoch };
     let ngroups = if thorough { 2 + r.below(60) as usize } else { 2 + r.below(9) as usize };
     // one large submission (over a thousand reports, groups interleaved by the shuffle): batching and merging of
     // partial results only show at this size
